@@ -473,6 +473,9 @@ class BaseTaskPool:
             task_id = self._num_started
             self._num_started += 1
             group_reg.add(task_id)
+            # Marked before the task exists: with an eager task factory the
+            # wrapper takes its first step inside `create_task` already.
+            self._tasks_unstarted.add(task_id)
             self._tasks_running[task_id] = task = create_task(
                 coro=self._task_wrapper(
                     awaitable, task_id, end_callback, cancel_callback
@@ -484,7 +487,6 @@ class BaseTaskPool:
                     t, awaitable, task_id, end_callback, cancel_callback
                 )
             )
-            self._tasks_unstarted.add(task_id)
         return task_id
 
     def _cleanup_unstarted(
